@@ -120,6 +120,10 @@ macro "wp_go" : tactic => `(tactic| repeat (any_goals wp_step))
 /-- step over a call whose result and effect are irrelevant to the postcondition -/
 macro "wp_skip_call" : tactic => `(tactic| (refine wp_forall ?_; intro _ _))
 
+/-- `wp_go'` that first tries the given specification (typically an induction hypothesis `∀ x s, wp (f x) Q s`) on calls -/
+macro "wp_go_with" h:term : tactic =>
+  `(tactic| repeat (any_goals (first | wp_step | (refine wp_mono ($h _ _) ?_; intro _ _ _) | wp_skip_call)))
+
 /-- `wp_go` for arbitrary postconditions: calls that cannot be stepped over with a lemma are skipped -/
 macro "wp_go'" : tactic => `(tactic| repeat (any_goals (first | wp_step | wp_skip_call)))
 
